@@ -270,7 +270,7 @@ def replay(case):
 
 
 MANIFEST = {
-    "text": "Exploration by runtime monitoring: every zip saved by generated histories (templates, samples, added files incl. identical content twice, deleted parts, image frames, merged styles with pictures (also merge - delete a picture it brought - merge again), clones, reopen cycles, pretty or not) is audited by an independent package reader: zip listing order and compression, duplicate names, independent parse of the manifest, listed-vs-present in both directions, root media type; a model of added/deleted files is compared with the members. Held = every audited zip satisfied every rule.",
+    "text": "Exploration by runtime monitoring: every zip saved by generated histories (templates, samples, added files incl. identical content twice, deleted parts, image frames, merged styles with pictures (also merge - delete a picture it brought - merge again), clones, reopen cycles, pretty or not) is audited by an independent package reader: zip listing order and compression, duplicate names, independent parse of the manifest, listed-vs-present in both directions, root media type; a model of added/deleted files is compared with the members. Held = every audited zip satisfied every rule. Also: parts the library manages itself (manifest.rdf, parsed XML parts of embedded objects) deleted, then save - reopen - save.",
     "note": "Trusted: zipfile, lxml; the rule set in DESIGN C04 (directory entries handled the LibreOffice way).",
     "technique": "runtime monitoring: independent package auditor over every produced artefact + model of expected members",
 }
